@@ -52,5 +52,7 @@ WrapNodes(B) == {Node(Wrap(s), {a}) : s \in B, a \in AL(B, 3)}
 \* (e.g. the same assertion salted twice)
 TwinDecorated(B) == {Node(s, {Node(Assn(p, o), {Assn(KV(4), p)}), Node(Assn(p, o), {Assn(KV(4), o)})}) :
                        s \in B, p \in B, o \in B} \ {Node(s, {Node(Assn(p, p), {Assn(KV(4), p)})}) : s \in B, p \in B}
+\* an assertion element decorated twice (a node over a node over an assertion)
+DeepDecorated(B) == {Node(s, {Node(Node(Assn(p, o), {Assn(KV(4), p)}), {Assn(KV(4), o)})}) : s \in B, p \in B, o \in B}
 ShUpTo(B, n) == IF n = 0 THEN {} ELSE Sh(B, n) \cup ShUpTo(B, n - 1)
 =============================================================================
